@@ -273,3 +273,44 @@ Theorem C03_uri_memo_refuted :
   (4 <=? 3) = false /\ (4 <=? 10) = true /\ item_req false 300 = [0; 300].
 Proof. exact uri_memo_refuted. Qed.
 Print Assumptions C03_uri_memo_refuted.
+
+(* The restart guard over the life of ONE Log object (model C03/Restart.v, second part; behaviour after fix F03c:
+   `not self.toc and self._toc_refresh_pending`, pending cleared on disconnected).  For EVERY history of
+   refresh_toc calls, reset replies (genuine, duplicated, left over from any earlier connection attempt) and
+   disconnects: a download is started only while a refresh_toc of the current attempt waits for its reset reply,
+   and at most once per refresh_toc.  In particular a reset reply left over from an earlier session arriving before
+   the new session's refresh_toc (e.g. before the protocol version answer) never starts a download. *)
+Theorem C03_stale_reset_reply_never_starts_a_fetch : forall evs,
+  Forall (fun b => b = true) (g_starts (grun GFixed evs)) /\
+  (List.length (g_starts (grun GFixed evs)) <= count_refresh evs)%nat.
+Proof.
+  intros evs. split.
+  - apply (fixed_guard_all_legit evs g_init). constructor.
+  - pose proof (fixed_guard_once_per_refresh evs g_init) as H. unfold grun. cbn in H.
+    destruct (g_pending (fold_left (gstep GFixed) evs g_init)); lia.
+Qed.
+Print Assumptions C03_stale_reset_reply_never_starts_a_fetch.
+
+(* what the guard `not self.toc` alone gives: the same, as long as no connection attempt is abandoned between
+   refresh_toc and its reset reply (the Toc kept from the previous session keeps the guard closed) ... *)
+Theorem C03_head_guard_legit_when_no_abandon : forall evs s,
+  head_inv s -> head_ok s evs -> Forall (fun b => b = true) (g_starts s) ->
+  Forall (fun b => b = true) (g_starts (fold_left (gstep GHead) evs s)).
+Proof. exact head_guard_legit_when_no_abandon. Qed.
+Print Assumptions C03_head_guard_legit_when_no_abandon.
+
+(* ... refuted otherwise (finding F03c): abandon between refresh_toc and the reset reply, then that reply arrives in
+   the next session before its refresh_toc: a download starts with the previous attempt's callback and version *)
+Theorem C03_head_guard_refuted_after_abandon :
+  g_starts (grun GHead [GRefresh; GDisconnect; GReset]) = [false] /\
+  g_starts (grun GFixed [GRefresh; GDisconnect; GReset]) = [].
+Proof. exact head_guard_refuted_after_abandon. Qed.
+Print Assumptions C03_head_guard_refuted_after_abandon.
+
+(* and the variant that clears the table on disconnected (mirroring Param) is refuted even for complete sessions *)
+Theorem C03_cleared_toc_refuted :
+  g_starts (grun GCleared [GRefresh; GReset; GDisconnect; GReset]) = [true; false] /\
+  g_starts (grun GHead [GRefresh; GReset; GDisconnect; GReset]) = [true] /\
+  g_starts (grun GFixed [GRefresh; GReset; GDisconnect; GReset]) = [true].
+Proof. exact cleared_toc_refuted. Qed.
+Print Assumptions C03_cleared_toc_refuted.
